@@ -85,7 +85,7 @@ func c17Check(env *core.Env, cc core.Case) core.Verdict {
 	}
 
 	switch c.Cmd {
-	case "generate", "generate-stdin", "generate-include", "generate-include-affix", "generate-except", "generate-cmdline", "generate-define", "generate-define-include":
+	case "generate", "generate-stdin", "generate-include", "generate-include-affix", "generate-except", "generate-cmdline", "generate-define", "generate-define-include", "generate-beside-define", "generate-beside-define-include":
 		long := "q" + longBody(c.Len-1)
 		if c.Len == 1 {
 			long = "q"
@@ -139,6 +139,17 @@ func c17Check(env *core.Env, cc core.Case) core.Verdict {
 				}
 			} else {
 				tree["regex-assembly/include/big.ra"] = def + c.join(ls)
+				program = "zulu26\n##!> include big\n"
+				accept = append(accept, "zulu26")
+			}
+		case "generate-beside-define", "generate-beside-define-include":
+			// the file with the long entry also holds a definition and a reference to it (the entry itself is literal)
+			text := "##!> define small xyz\nuses{{small}}\n" + c.join(lines)
+			accept = append(accept, "usesxyz")
+			if c.Cmd == "generate-beside-define" {
+				program = text
+			} else {
+				tree["regex-assembly/include/big.ra"] = text
 				program = "zulu26\n##!> include big\n"
 				accept = append(accept, "zulu26")
 			}
@@ -298,6 +309,9 @@ func c17Check(env *core.Env, cc core.Case) core.Verdict {
 
 	case "renumber":
 		long := `          uri: "/get?x=` + longBody(c.Len) + `"`
+		if c.Pos == "last" && c.Len >= 64 {
+			long = `          uri: "/get?x=` + longBody(c.Len-24) + `"` // exactly Len bytes
+		}
 		lines := c.place(long, func(i int) string {
 			if i%3 == 0 {
 				return fmt.Sprintf("  - test_id: %d", 40+i)
@@ -323,6 +337,9 @@ func c17Check(env *core.Env, cc core.Case) core.Verdict {
 
 	case "copyright":
 		long := `SecRule ARGS "@rx ` + longBody(c.Len) + `" \`
+		if c.Pos != "first" && c.Len >= 64 {
+			long = "# " + longBody(c.Len-2) // a line of exactly Len bytes (buffer-size multiples matter when it ends the file)
+		}
 		lines := c.place(long, func(i int) string {
 			switch i % 4 {
 			case 0:
@@ -432,21 +449,23 @@ func init() {
 	register(&core.Property{
 		ID:    "C17",
 		Level: "exploration",
-		Rule: "every line-oriented command (generate from a file and from stdin (total input above 1 MiB included), through include, through an include file that has its own prefix and suffix, through include-except, inside a cmdline block and through the expansion of a definition in the file or in an include file; format and format --check; renumber-tests; update-copyright; update) gets an input in which one line has length L in {1, 4096, 65535, 65536, 65537, 70000, 262144, 1048576} at the first, middle or last position among 0..9 short lines, with and without final newline (the quick tier enumerates L in {1, 65535, 65536, 70000} at all positions and 1 MiB in the middle; the thorough tier enumerates everything and adds PRNG-chosen lengths around the 64 KiB boundary). " +
+		Rule: "every line-oriented command (generate from a file and from stdin (total input above 1 MiB included), through include, through an include file that has its own prefix and suffix, through include-except, inside a cmdline block, through the expansion of a definition in the file or in an include file, and as a literal entry beside a definition; format and format --check; renumber-tests; update-copyright; update) gets an input in which one line has length L in {1, 4096, 8192, 65535, 65536, 65537, 70000, 262144, 1048576} at the first, middle or last position among 0..9 short lines, with and without final newline (the quick tier enumerates L in {1, 65535, 65536, 70000} at all positions and 1 MiB in the middle; the thorough tier enumerates everything and adds PRNG-chosen lengths around the 64 KiB boundary). " +
 			"Oracle (conservation): either the command fails loudly and changes nothing, or the generated/stored regex accepts every entry including those after the long one and the long entry itself (checked with Go's regexp engine), and rewritten files equal the line model of the respective command. Non-trivial = L >= 65536.",
 		Cases: func(env *core.Env, rng *rand.Rand) []core.Case {
 			var cs []core.Case
-			lens := []int{1, 4096, 65535, 65536, 65537, 70000, 262144, 1048576}
+			lens := []int{1, 4096, 8192, 65535, 65536, 65537, 70000, 262144, 1048576}
 			if env.Thorough() {
 				for i := 0; i < 24; i++ {
 					lens = append(lens, 65000+rng.Intn(1200), 131072-2+rng.Intn(5), 600000+rng.Intn(500000))
 				}
 			}
-			for _, cmd := range []string{"generate", "generate-stdin", "generate-include", "generate-include-affix", "generate-except", "generate-cmdline", "generate-define", "generate-define-include", "generate-include-many", "format", "format-check", "renumber", "renumber-all", "copyright", "update"} {
+			for _, cmd := range []string{"generate", "generate-stdin", "generate-include", "generate-include-affix", "generate-except", "generate-cmdline", "generate-define", "generate-define-include", "generate-beside-define", "generate-beside-define-include", "generate-include-many", "format", "format-check", "renumber", "renumber-all", "copyright", "update"} {
 				for _, l := range lens {
 					for _, pos := range []string{"first", "middle", "last"} {
 						for _, nf := range []bool{false, true} {
-							if !env.Thorough() && (l == 4096 || l == 65537 || l == 262144 || (l == 1048576 && pos != "middle")) {
+							if !env.Thorough() && (l == 4096 || l == 8192) && (cmd == "copyright" || cmd == "renumber" || cmd == "format") && pos == "last" {
+								// buffer-size multiples at the end of a rewritten file stay in the quick tier
+							} else if !env.Thorough() && (l == 4096 || l == 8192 || l == 65537 || l == 262144 || (l == 1048576 && pos != "middle")) {
 								continue // the quick tier keeps the boundary lengths and one position for the 1 MiB line
 							}
 							if cmd == "generate-cmdline" && l > 70000 {
